@@ -58,6 +58,13 @@ impl<'a> ProjectionStrategy for SelectionProjection<'a> {
                 .cloned()
                 .collect();
             set.add_many(projected);
+            // The ORDER BY field feeds the shard-level sort and the ordered merges,
+            // so it has to be loaded even when RETURN does not list it
+            if let Some(order) = self.plan.order_by() {
+                if payload_set.contains(&order.field) {
+                    set.add(order.field.clone());
+                }
+            }
         }
 
         set.add("event_id");
